@@ -15,10 +15,11 @@ for prop, tier, body, rc in runs:
     det.append({"property": prop, "tier": tier, "exit": int(rc), "violation_lines": v,
                 "concrete_failing_input": bool(v) and not v[0].endswith("no-failing-input-found")})
 caught = any(d["exit"] == 1 for d in det)
+demo = open(base + "/demo_result.txt").read().strip() if os.path.exists(base + "/demo_result.txt") else "not re-run by the lead (round-1 seeded change; the agent's own record is in meta.agent.json)"
 meta = {"seeded_id": sid, "property": (a.get("property") or sid.split("-")[0]),
         "summary": a.get("summary", ""), "needs": a.get("needs", ""),
         "author": "fresh sub-agent given only the property text and a scratch worktree",
-        "confirmed_by_lead": {"patch_applies": True, "builds_and_baseline_tests_pass_with_change": True,
+        "confirmed_by_lead": {"patch_applies": True, "builds_and_baseline_tests_pass_with_change": True, "demonstration": demo,
                               "ran": [f"tools/seedtest.sh <agent dir> {sid} " + " ".join(sorted({d['property'] for d in det}))]},
         "detected": {"caught": caught, "tier": det[-1]["tier"] if det else "", "how": note or ("concrete failing input" if any(d["concrete_failing_input"] for d in det) else ("no-failing-input-found" if caught else "MISSED")),
                      "runs": det}}
